@@ -49,6 +49,7 @@ TraceAccepted ==
     /\ \/ TLCGet("stats").diameter - 1 = Len(Rec) - 1
        \/ PrintT(<<"TRACE-REJECTED at line", TLCGet("stats").diameter + 1>>) /\ FALSE
     /\ \A t \in TraceTables :
+          \/ Meta.partial                     \* replay of single cases
           \/ Cases(t, Tier) \subseteq Seen(t)
           \/ PrintT(<<"TRACE-REJECTED at line", 1, "cases never executed", t, Cardinality(Cases(t, Tier) \ Seen(t))>>) /\ FALSE
 =============================================================================
